@@ -34,7 +34,7 @@ class TrackingSource(H.SafeSource):
         return super().normalvariate(mean, sigma)
 
 
-def produced_set(rep, classes, start, d, max_runs):
+def produced_set(rep, classes, start, d, max_runs, budget=None):
     """({structure: draws}, errors [(draws, exc)], exhaustive?, rejected exception | None, runs)"""
     g = H.extract_grammar(list(classes), start)
     flag = {"wide": False}
@@ -53,6 +53,9 @@ def produced_set(rep, classes, start, d, max_runs):
     cut = False
     for values, res, exc in enumerate_outcomes(fn, max_runs=max_runs, max_draws=150):
         runs += 1
+        if budget is not None and runs % 500 == 0 and budget.over():
+            cut = True
+            break
         if isinstance(exc, str):
             cut = True
             continue
@@ -111,18 +114,19 @@ def attribute(m, view, g):
 
 def run(tier: str, seed: int) -> dict:
     thorough = tier == "thorough"
-    budget = Budget(430 if thorough else 33)
+    budget = Budget(380 if thorough else 30)
     F = Findings("C04")
     fam = H.full_family()
     lang_cap = 20000
     max_lang = 20000 if thorough else 1500
-    max_runs = 120000 if thorough else 6000
+    max_runs = 30000 if thorough else 6000
     evaluations = 0
     distinct = set()
     samples = []
     cells = []
     notes = []
     finite = 0
+    members = []
     for name, classes, start, desc in fam:
         view = GrammarView(classes, start)
         L = Lang(view, lang_cap)
@@ -137,15 +141,22 @@ def run(tier: str, seed: int) -> dict:
         finite += 1
         abstract_syms = [s for s in view.reachable() if is_abs(s)]
         all_abs_recursive = bool(abstract_syms) and all(s in view.recursive() for s in abstract_syms)
-        for d in range(max(1, md - 1), md + (8 if thorough else 4)):
-            if budget.over():
-                break
+        members.append({"name": name, "classes": classes, "start": start, "view": view, "L": L, "md": md, "rec": all_abs_recursive, "open": True})
+    # depth offsets outermost: every grammar is covered at its small depths before any deep cell is started
+    for k in range(0, 9 if thorough else 5):
+        for m in members:
+            if not m["open"] or budget.over():
+                continue
+            name, classes, start, view, L, md, all_abs_recursive = m["name"], m["classes"], m["start"], m["view"], m["L"], m["md"], m["rec"]
+            d = max(1, md - 1) + k
             try:
                 lang = L.of(start, d)
             except TooBig:
-                break
+                m["open"] = False
+                continue
             if len(lang) > max_lang:
-                break
+                m["open"] = False
+                continue
             langset = set(lang)
             # ---------------- grow: exactly the bounded language
             for rep in ("tree-grow", "tree-pi", "tree-full"):
@@ -155,7 +166,7 @@ def run(tier: str, seed: int) -> dict:
                     continue
                 # full creation as the library's own FullInitializer performs it: FullDecider(max_depth + 1)
                 dd = d + 1 if rep == "tree-full" else d
-                out, errors, exhaustive, rejected, runs, g = produced_set(rep, classes, start, dd, max_runs)
+                out, errors, exhaustive, rejected, runs, g = produced_set(rep, classes, start, dd, max_runs, budget)
                 evaluations += runs
                 cells.append((name, rep, d, runs, exhaustive))
                 for st in out:
@@ -182,9 +193,9 @@ def run(tier: str, seed: int) -> dict:
                 if rep == "tree-grow" and exhaustive and not errors:
                     missing = [s for s in lang if s not in out]
                     if missing:
-                        m = min(missing, key=lambda s: (s_depth(s), len(repr(s))))
-                        key = "grow:unreachable:" + attribute(m, view, g)
-                        F.add(key, f"{where}: {len(missing)} of {len(lang)} programs of the bounded language are never produced over all {runs} draw sequences, e.g. {s_show(m, 80)}", size=d * 100 + len(repr(m)))
+                        wit = min(missing, key=lambda s: (s_depth(s), len(repr(s))))
+                        key = "grow:unreachable:" + attribute(wit, view, g)
+                        F.add(key, f"{where}: {len(missing)} of {len(lang)} programs of the bounded language are never produced over all {runs} draw sequences, e.g. {s_show(wit, 80)}", size=d * 100 + len(repr(wit)))
                 if rep == "tree-full":
                     expected = {s for s in lang if s_all_branches_end_at(s, d)}
                     if not expected:
@@ -199,10 +210,10 @@ def run(tier: str, seed: int) -> dict:
                     if exhaustive and not errors:
                         missing = [s for s in expected if s not in out]
                         if missing:
-                            m = min(missing, key=lambda s: len(repr(s)))
-                            F.add("full:unreachable:" + attribute(m, view, g), f"{where}: {len(missing)} of {len(expected)} full programs are never produced over all {runs} draw sequences, e.g. {s_show(m, 80)}", size=d * 100 + len(repr(m)))
+                            wit = min(missing, key=lambda s: len(repr(s)))
+                            F.add("full:unreachable:" + attribute(wit, view, g), f"{where}: {len(missing)} of {len(expected)} full programs are never produced over all {runs} draw sequences, e.g. {s_show(wit, 80)}", size=d * 100 + len(repr(wit)))
                     # direct reading (FullDecider(max_depth=d)): recorded as a note only, see final report
-                    out2, err2, ex2, rej2, runs2, _ = produced_set(rep, classes, start, d, max_runs)
+                    out2, err2, ex2, rej2, runs2, _ = produced_set(rep, classes, start, d, min(max_runs, 2000), budget)
                     evaluations += runs2
                     if rej2 is None and out2 and not any(s_all_branches_end_at(s, d) for s in out2):
                         n = f"FullDecider(max_depth=d) used directly yields programs whose branches end at d-1 (e.g. {name}, d={d}: {s_show(next(iter(out2)), 50)}); FullInitializer compensates by passing max_depth+1"
